@@ -509,9 +509,9 @@ func PropC12(c *vs.Case, f Factory, kind string, fixed bool) error {
 		if h.Def.Resource == scn.Cfg.ParentResource {
 			continue
 		}
-		id := fmt.Sprintf("%v %s/%s", h.Def.Kind, h.Namespace, h.Name)
+		id := objIDOf(h.Def.Kind, h.Def.APIVersion(), h.Namespace, h.Name)
 		if h.Verb == "create" && h.Body != nil {
-			id = fmt.Sprintf("%v %s/%s", h.Def.Kind, h.Namespace, metaStr(h.Body, "name"))
+			id = objIDOf(h.Def.Kind, h.Def.APIVersion(), h.Namespace, metaStr(h.Body, "name"))
 		}
 		skip[id] = true
 	}
